@@ -3,7 +3,9 @@
 prints the prompt for a fresh sub-agent that must seed a defect for property Cxx (the agent gets only the
 property's text and its own worktree; nothing from /verif)."""
 import json, subprocess, sys, os
-pid, tag = sys.argv[1], sys.argv[2]
+hard = "--hard" in sys.argv
+args = [a for a in sys.argv[1:] if a != "--hard"]
+pid, tag = args[0], args[1]
 prop = None
 for l in open('/verif/properties.jsonl'):
     d = json.loads(l)
@@ -13,6 +15,7 @@ if not os.path.isdir(wt):
     subprocess.check_call(["git", "-C", "/repo", "worktree", "add", "-q", "--detach", wt, "HEAD"])
 os.makedirs(out, exist_ok=True)
 anch = prop['anchors']
+HARD = ("AVOID the obvious mechanisms — do not simply remove a lock, an unlock, a nil/length/range check, a defer, a clone or a call. Prefer semantic slips that survive a careful read: a boundary that is off in one corner case, two statements reordered that each look fine, state updated in one of two sibling places but not the other, an index taken in the wrong index space, a condition rewritten into one that is equivalent except for one input class, a cache/flag that is computed from slightly too little, a value captured too early or too late. " if hard else "")
 print(f"""You are helping test a verification effort for the Go library bufbuild/protocompile (a pure-Go Protocol Buffers compiler). Your job: play the role of a developer who introduces a subtle, realistic bug.
 
 You have your own scratch git worktree of the repository at {wt} (work ONLY there; never touch /repo or /verif, and do not read anything under /verif). The repository builds and its test suite passes offline. There is no network. Use plain `go` with `GOPROXY=off` (e.g. `cd {wt} && GOPROXY=off go build ./... && GOPROXY=off go test -vet=off -count=1 ./...`; the whole suite takes a few minutes; some tests under experimental/ fail already at baseline — compare against a run without your change, and note that internal/intern, internal/ext/syncx and parser TestPathological are load-sensitive flakes).
@@ -29,7 +32,7 @@ TASK: produce TWO independent changes to the library's (non-test) source, in dif
   2. still compiles (`go build ./...`) and still passes the existing test suite exactly as the unchanged tree does (run the suite with and without the change and compare; only pre-existing failures/flakes may differ),
   3. needs something SPECIFIC to manifest — a particular interleaving, a fault or panic at a particular point, a multi-step sequence of operations, an unusual input, or two cooperating sites that each look fine alone — NOT something that ordinary use would expose at once,
   4. looks like a plausible refactor, optimisation or "cleanup" a maintainer might really make (not sabotage, no dead code, no comments announcing the bug), and is small (typically 1–30 changed lines).
-Never use `git stash` (the stash is shared between worktrees and other people are working in sibling worktrees); to go back to the clean tree use `git diff > file` and `git checkout -- .`. Do not modify or delete existing tests, testdata or generated files' inputs. Each change must be independent (each applies alone to the unchanged tree).
+Never use `git stash` (the stash is shared between worktrees and other people are working in sibling worktrees); to go back to the clean tree use `git diff > file` and `git checkout -- .`. {HARD}Do not modify or delete existing tests, testdata or generated files' inputs. Each change must be independent (each applies alone to the unchanged tree).
 
 For each change also write a DEMONSTRATION: a new Go test file (package-internal or external test, your choice) that FAILS (or hangs until its own timeout, or is flagged by -race if you say so) with the change applied and PASSES on the unchanged tree. Make it deterministic if at all possible (use hooks such as custom resolvers, channels and barriers rather than sleeps; if it is probabilistic, loop enough to make failure near-certain with the change and say so). Verify both directions yourself.
 
